@@ -232,3 +232,75 @@ Theorem C07_messages_of_one_message : forall c rsv0 op k0 p0 l, c_ext c = true -
   wire_ok c fs /\ messages_of c fs = [mkEv op (msg_payload p0 l) false (ReaderStreamC13.rsv1_bit rsv0)].
 Proof. exact messages_of_message. Qed.
 Print Assumptions C07_messages_of_one_message.
+(* Tie C4 (source level): UTF8Reader.Read translated from the Go SOURCE on this run.  u.Source.Read is a
+   stateful oracle; on this call it answers (d, n, e): d the bytes it stores at the front of p.  Under the
+   io.Reader contract (bytes, at most len(p) of them, 0 <= n <= what it stored), for EVERY world, buffer,
+   DFA state, codep, accepted field and answer: no panic, no loop out of fuel; p holds d and nothing else
+   changed; the reader has advanced; and what the method returns and leaves in its fields is the model step
+   (Utf8Dfa.u8_scan over the n bytes read, as in u8_read): rejected -> (bytes accepted so far, ErrInvalidUTF8),
+   state = reject, `accepted` field and codep untouched; otherwise (n, the reader's error), state and
+   `accepted` field updated (codep is private).  The new state is again a DFA state. *)
+Require Translated4Utf8.
+Theorem C07_source_reader_step : forall w u p d n e,
+  GoMem.sl_valid w p -> (GoMem.sl_len p <= Translated3Ok.max_int)%Z ->
+  In (Translated3.g3_wsutil_UTF8Reader_state u) Translated3Ok.u8_states ->
+  GoMem.rd_fun (Translated3.g3_wsutil_UTF8Reader_Source u)
+    (GoMem.rd_hist (Translated3.g3_wsutil_UTF8Reader_Source u)) (GoMem.sl_len p) = (d, n, e) ->
+  GoSlices.go_bytes d -> (GoSlices.go_len d <= GoMem.sl_len p)%Z -> (0 <= n <= GoSlices.go_len d)%Z ->
+  let b := Translated3Ok.nb (firstn (Z.to_nat n) d) in
+  let src' := GoMem.rd_next (Translated3.g3_wsutil_UTF8Reader_Source u) (GoMem.sl_len p) in
+  let '(st', acc, rej) := u8_scan (Z.to_N (Translated3.g3_wsutil_UTF8Reader_state u)) 0 0 b in
+  exists cp',
+    Translated3.g3_wsutil_UTF8Reader_Read u p w =
+    GoSlices.Ok (if rej
+        then (Z.of_N acc, Some Translated3.E_wsutil_ErrInvalidUTF8,
+              Translated3.g3_mk_wsutil_UTF8Reader src' (Translated3.g3_wsutil_UTF8Reader_accepted u) (Z.of_N st')
+                (Translated3.g3_wsutil_UTF8Reader_codep u))
+        else (n, e, Translated3.g3_mk_wsutil_UTF8Reader src' (Z.of_N acc) (Z.of_N st') cp'),
+        GoMem.sl_blit w p 0%Z d)
+    /\ In (Z.of_N st') Translated3Ok.u8_states.
+Proof. exact Translated4Utf8.g3_UTF8Reader_Read_ok. Qed.
+Print Assumptions C07_source_reader_step.
+
+(* the reader stores E2 82 AC 41 C3 into a 6-byte window of an 8-byte array: 5 read, 4 accepted, the DFA is
+   left inside a sequence (state 24), the guard bytes untouched; the next read delivers C0: rejected with
+   0 accepted, state 12, `accepted` field still 4 *)
+Example C07_source_reader_nonvacuous :
+  let rd : GoMem.g_reader Translated3.g_error :=
+    GoMem.mk_reader [] (fun h k => if (length h =? 0)%nat then ([226; 130; 172; 65; 195]%Z, 5%Z, None) else ([192]%Z, 1%Z, None)) in
+  let u := Translated3.g3_mk_wsutil_UTF8Reader rd 0%Z 0%Z 0%Z in
+  let w := GoMem.mk_world [[7; 7; 7; 7; 7; 7; 7; 7]%Z] [] in
+  let p := GoMem.mk_slice 0 1 6 7 in
+  match Translated3.g3_wsutil_UTF8Reader_Read u p w with
+  | GoSlices.Ok ((n, e, u'), w') =>
+      n = 5%Z /\ e = None /\ Translated3.g3_wsutil_UTF8Reader_accepted u' = 4%Z
+      /\ Translated3.g3_wsutil_UTF8Reader_state u' = 24%Z
+      /\ GoMem.w_heap w' = [[7; 226; 130; 172; 65; 195; 7; 7]%Z]
+      /\ match Translated3.g3_wsutil_UTF8Reader_Read u' p w' with
+         | GoSlices.Ok ((n2, e2, u2), _) =>
+             n2 = 0%Z /\ e2 = Some Translated3.E_wsutil_ErrInvalidUTF8
+             /\ Translated3.g3_wsutil_UTF8Reader_state u2 = 12%Z /\ Translated3.g3_wsutil_UTF8Reader_accepted u2 = 4%Z
+         | _ => False
+         end
+  | _ => False
+  end.
+Proof. vm_compute. repeat split; reflexivity. Qed.
+
+(* The same step with u.Source a reader that serves a chunked stream (Translated4Hdr.src_reader: one read1 of
+   lib/Stream.v per call): UTF8Reader.Read IS the model's u8_read — count, error class (the stream's error /
+   ErrInvalidUTF8), remaining stream, DFA state and `accepted` field; p holds the chunk read. *)
+Require Translated4Hdr Translated4Utf8Src.
+Theorem C07_source_reader_read : forall s0 h w p st a0 cp,
+  GoMem.sl_valid w p -> (0 < GoMem.sl_len p <= Translated3Ok.max_int)%Z -> In st Translated3Ok.u8_states ->
+  wf_src (Translated4Hdr.src_at s0 h) -> wf_bytes (flat (Translated4Hdr.src_at s0 h)) ->
+  let u := Translated3.g3_mk_wsutil_UTF8Reader (Translated4Hdr.src_reader s0 h) (Z.of_N a0) st cp in
+  let '((n, b, e), m') := u8_read (Z.to_N (GoMem.sl_len p)) (mkU8 (Translated4Hdr.src_at s0 h) (Z.to_N st) a0) in
+  exists cp',
+    Translated3.g3_wsutil_UTF8Reader_Read u p w =
+    GoSlices.Ok ((Z.of_N n, option_map Translated4Utf8Src.u8err_go e,
+         Translated3.g3_mk_wsutil_UTF8Reader (Translated4Hdr.src_reader s0 (h ++ [GoMem.sl_len p]))
+           (Z.of_N (u_accepted m')) (Z.of_N (u_state m')) cp'),
+        GoMem.sl_blit w p 0%Z (Translated3Ok.zb b))
+    /\ Translated4Hdr.src_at s0 (h ++ [GoMem.sl_len p]) = u_src m'.
+Proof. exact Translated4Utf8Src.g3_UTF8Reader_Read_src. Qed.
+Print Assumptions C07_source_reader_read.
